@@ -5,8 +5,8 @@ CONSTANTS
   Mortal = {2}
   MortalLife = 2
   Flaky = {2}
-  DupPeers = {1, 2}
-  DupChunks = {1, 2}
+  DupPeers = {1}
+  DupChunks = {1}
   Limits = {0, 1, 2}
   Timeout = 2
   Recon = 0
